@@ -359,4 +359,41 @@ theorem azimuth_no_latitude (s : Bytes) (v : F64) (h : decodeAzimuth s = .ok v) 
       exact ⟨w, ind, heq, hi, rfl⟩
 
 
+/-! ## malformed input: NUL bytes, and the splitting of sums -/
+
+/-- **NUL is rejected** (component loop, all strings, any position, any fuel): a component text containing a NUL byte
+    is never accepted.  `…_partial`: the full statement "`decode s` is an error whenever `0 ∈ s`" also needs that
+    `replaceAll`, `trim`, `pieces` and `strip` keep the NUL and that `nummatch` does not match it; those steps are
+    covered by the exact correspondence on the NUL-containing mutation / random streams, not by a theorem. -/
+theorem nul_rejected_partial (f np : Nat) (sl : Slots) (s : Bytes) (h : 0 ∈ s) : ∃ e, comps f np sl s = .error e :=
+  comps_nul f np sl s h
+
+/-- none of the substitution patterns contains a NUL, and none replaces by a digit, point or letter: the table can only
+    produce `d ' " + -` or delete (Gen-obligation) -/
+theorem replace_table_wellformed :
+    ∀ pc ∈ DMSC.replaceTable, pc.1 ≠ [] ∧ 0 ∉ pc.1 ∧ pc.1 ≠ [pc.2] ∧ (pc.2 = 0 ∨ pc.2 = 100 ∨ pc.2 = 39 ∨ pc.2 = 34 ∨ pc.2 = 43 ∨ pc.2 = 45) := by
+  decide +kernel
+
+/-- **splitting a sum loses nothing**: the pieces handed to `InternalDecode` concatenate to the trimmed text -/
+theorem pieces_join : ∀ (fuel : Nat) (first : Bool) (t : Bytes), t.length ≤ fuel → (pieces fuel first t).flatten = t := by
+  intro fuel
+  induction fuel with
+  | zero =>
+    intro first t h
+    have : t = [] := by cases t with | nil => rfl | cons _ _ => simp at h
+    subst this; simp [pieces]
+  | succ fuel ih =>
+    intro first t h
+    cases t with
+    | nil => simp [pieces]
+    | cons c t' =>
+      simp only [pieces, List.isEmpty_cons, Bool.false_eq_true, if_false, List.flatten_cons]
+      rw [ih]
+      · exact List.take_append_drop _ _
+      · simp only [List.length_drop, List.length_cons] at h ⊢
+        omega
+
+example : pieces 12 true (strBytes "S3-2.5+4.1N") = [strBytes "S3", strBytes "-2.5", strBytes "+4.1N"] := by decide
+example : pieces 8 true (strBytes "N-20d30") = [strBytes "N-20d30"] := by decide
+
 end GeoVerif.Props.C10
